@@ -128,3 +128,23 @@ PROPS["C13"] = dict(
         dict(name="generated", run="^TestGeneratedFaults$", quick=20000, thorough=800000, shards=16, timeout_thorough=3000),
     ],
 )
+
+PROPS["C12"] = dict(
+    pkg="c12", level="exploration",
+    technique="property-based testing (rapid) with re-executed child processes in testing and production mode; enumeration of the Panic/Fatal flag matrix in the thorough tier",
+    claim=("Each scenario (entry point, severity, logger level incl. a custom level treated as Panic, no-interrupt and interrupt-always flags, "
+           "format, process mode) is executed in a child process built from the tree whose binary name selects testing or production mode; "
+           "exit status, recovered panic value, 'returned' marker and the records found in the destination file are compared with "
+           "terminate = admitted and not noInterrupt and (production or interruptAlways) and severity in {Panic,Fatal}. The Panic half and "
+           "all negative cases also run in-process at high volume. Thorough enumerates the whole {Panic,Fatal} matrix (~4400 child processes)."),
+    note="'Under a debugger' cannot be reproduced here. Production mode is obtained by running a copy of the test binary under a name not ending in .test (that is how hedzr/is decides). Records are counted with a separator appended by the harness writer.",
+    rule=("quick: rapid draws cells (3/4 of them with severity Panic or Fatal) for child processes and in-process scenarios with messages of any "
+          "byte class. Non-trivial: the cell terminates, or exactly one conjunct of the termination condition is false; distinct = (entry point, "
+          "severity, logger level, both flags, format, process mode)."),
+    assumptions=["the child observes the record through an unbuffered os.File write before the process ends"],
+    stages=[
+        dict(name="child", run="^TestChildSampled$", quick=700, thorough=8000, shards=16, timeout_thorough=3000),
+        dict(name="inprocess", run="^TestInProcess$", quick=20000, thorough=400000, shards=16, timeout_thorough=3000),
+        dict(name="matrix", run="^TestChildMatrix$", tier="thorough", thorough=16, shards=16, timeout_thorough=3000),
+    ],
+)
